@@ -19,6 +19,7 @@ import (
 	"mime/multipart"
 	"net/http"
 	"net/textproto"
+	"os"
 	"sort"
 	"strings"
 	"sync"
@@ -352,6 +353,9 @@ func main() {
 		}()
 	}
 	wg.Wait()
+	if fds, err := ioutil.ReadDir("/proc/self/fd"); err == nil {
+		fmt.Fprintf(os.Stderr, "open fds at end: %d after %d executions\n", len(fds), len(execs))
+	}
 	for _, res := range results {
 		for _, e := range res {
 			w.Emit(e)
